@@ -330,8 +330,9 @@ func (s *Script) hideFor(pos int) [][2]int {
 
 // prefixHiding renders lines [0,n) without the given ranges (declarations and
 // global facts inside them are kept).
-func (s *Script) prefixHiding(n int, hide [][2]int, noProvedFrom int) string {
-	if len(hide) == 0 && noProvedFrom < 0 {
+func (s *Script) prefixHiding(n int, hide [][2]int, noProvedFrom int, noStringFacts ...bool) string {
+	dropStr := len(noStringFacts) > 0 && noStringFacts[0]
+	if len(hide) == 0 && noProvedFrom < 0 && !dropStr {
 		return s.prefix(n)
 	}
 	var b strings.Builder
@@ -352,6 +353,11 @@ func (s *Script) prefixHiding(n int, hide [][2]int, noProvedFrom int) string {
 	}
 	for i := 0; i < n; i++ {
 		if noProvedFrom >= 0 && i >= noProvedFrom && s.proved[i] {
+			continue
+		}
+		// frame obligations compare heap cells; the generator's facts about string
+		// contents (extensionality, concatenation bytes) only slow them down
+		if dropStr && s.global[i] && strings.Contains(s.lines[i], "sbyte") {
 			continue
 		}
 		for hi < len(merged) && merged[hi][1] <= i {
